@@ -210,6 +210,25 @@ class Facts:
                         rq = it.root
                     it.qname = qname_of(it, rq)
                     self._item_qname[it.path] = it.qname
+        # functions aliased to a reviewed path keep the reviewed qualified name too (an associated fn turned free fn)
+        if self.aliases:
+            try:
+                with open(_aliases.TABLE) as fh:
+                    base_fns = json.load(fh).get("fns", {})
+            except OSError:
+                base_fns = {}
+            forced = {old: base_fns[old][4] for old in self.aliases.values() if old in base_fns and len(base_fns[old]) > 4}
+            if forced:
+                for c in self.crates.values():
+                    for it in c.items:
+                        if it.root is None and it.path in forced:
+                            it.qname = forced[it.path]
+                            self._item_qname[it.path] = it.qname
+                for c in self.crates.values():
+                    for it in c.items:
+                        if it.root is not None and it.root in forced:
+                            it.qname = qname_of(it, forced[it.root])
+                            self._item_qname[it.path] = it.qname
         self.by_qname = {}
         for f in self.fns:
             f.qname = f.item.qname
